@@ -1,6 +1,7 @@
 import FitProofs.DecodeAccepts
 import FitProofs.MsgRoundtrip
 import FitProofs.TypedFile
+import FitProofs.Pad
 /-
   C06 at file level: what `Decode` returns on the bytes `Encode` wrote.  The record machine, run
   on the blocks of `encode_wellformed`, hands exactly the File's messages — in the encoder's order —
@@ -240,15 +241,26 @@ theorem All2.imp {α β} {R S : α → β → Prop} {as : List α} {bs : List β
     exact .cons (hi _ _ (List.mem_cons_self ..) (List.mem_cons_self ..) hr)
       (ih fun a b ha hb => hi a b (List.mem_cons_of_mem _ ha) (List.mem_cons_of_mem _ hb))
 
+theorem All2.map_right {α β γ} {R : α → β → Prop} {S : α → γ → Prop} {as : List α} {bs : List β} (f : β → γ)
+    (h : All2 R as bs) (hi : ∀ a b, a ∈ as → b ∈ bs → R a b → S a (f b)) : All2 S as (bs.map f) := by
+  induction h with
+  | nil => exact .nil
+  | cons hr _ ih =>
+    exact .cons (hi _ _ (List.mem_cons_self ..) (List.mem_cons_self ..) hr)
+      (ih fun a b ha hb => hi a b (List.mem_cons_of_mem _ ha) (List.mem_cons_of_mem _ hb))
+
 /-- what the round trip needs of one message written under the fields `W`: every written field
     round-trips, and every field left invalid holds the constructor's invalid value -/
 structure MsgDom (P : Profile) (arch : Endian) (pm : PMsg) (m : Msg) (W : PField → Prop) : Prop where
+  /-- a valid field is read back as itself, an array padded to the profile length -/
   rt : ∀ pf ∈ pm.fields, W pf → ∀ k v, pm.layout[pf.sindex]? = some k → m.vals[pf.sindex]? = some v →
-    isInvalidVal pm pf.sindex v = false → ∀ fs, FieldRT P (defOf arch m.num fs) pf k v
+    isInvalidVal pm pf.sindex v = false → ∀ fs, FieldRTG P (defOf arch m.num fs) pf k v
+      (pm.invalid.getD pf.sindex (.u 0)) (padVal pf v)
   /-- a field the definition carries although this message leaves it invalid (it is valid in another
-      message of the group): its invalid value, written as a filler, is read back as "nothing to store" -/
+      message of the group): its invalid value, written as a filler, is read back as "nothing to
+      store" — or, for an array, as the all-invalid array of the profile length -/
   filler : ∀ pf ∈ pm.fields, W pf → ∀ k v, pm.layout[pf.sindex]? = some k → m.vals[pf.sindex]? = some v →
-    isInvalidVal pm pf.sindex v = true → ∀ fs, FieldRTI P (defOf arch m.num fs) pf k v v
+    isInvalidVal pm pf.sindex v = true → ∀ fs, FieldRTG P (defOf arch m.num fs) pf k v v (padVal pf v)
   inv : ∀ i v, m.vals[i]? = some v → isInvalidVal pm i v = true → pm.invalid[i]? = some v
 
 /-- is the field valid in this message? -/
@@ -273,14 +285,14 @@ theorem getD_of_getElem? {α} (l : List α) (i : Nat) (v d : α) (h : l[i]? = so
 
 theorem isMsgs_one (P : Profile) (hwf : ProfileWF P = true) (arch : Endian) (m : Msg) (pm : PMsg)
     (hpm : P.msg? m.num = some pm) (hkn : P.known m.num = true)
-    (hd : MsgDom P arch pm m (validIn pm m)) : IsMsgs P (encodeOne P arch m) [m] := by
+    (hd : MsgDom P arch pm m (validIn pm m)) : IsMsgs P (encodeOne P arch m) [wireMsg pm [m] m] := by
   intro bs h
   have hknpm : pm.known = true := by
     unfold Profile.known at hkn; rw [hpm] at hkn; exact hkn
-  obtain ⟨fs, parts, hbs, hmem, hfit, hsmall, hstep⟩ := message_roundtrip P hwf arch m bs pm hpm hknpm h
+  obtain ⟨fs, parts, hbs, hmem, hfit, hsmall, hstep⟩ := message_roundtripG P hwf arch m bs pm hpm hknpm h
     (fun pf hp k v hk hv hiv fs => hd.rt pf hp (by unfold validIn; rw [getD_of_getElem? _ _ _ _ hv]; exact hiv) k v hk hv hiv fs)
     hd.inv
-  refine ⟨[⟨defOf arch m.num fs, [parts], [m]⟩], ?_, ?_, rfl⟩
+  refine ⟨[⟨defOf arch m.num fs, [parts], [wireMsg pm [m] m]⟩], ?_, ?_, rfl⟩
   · rw [hbs]; simp [blockItems]
   · intro b hb
     simp only [List.mem_singleton] at hb
@@ -346,7 +358,7 @@ theorem isMsgs_group (P : Profile) (hwf : ProfileWF P = true) (arch : Endian) (m
     (hpm : P.msg? m0.num = some pm) (hkn : P.known m0.num = true)
     (hnum : ∀ m ∈ m0 :: rest, m.num = m0.num)
     (hd : ∀ m ∈ m0 :: rest, MsgDom P arch pm m (fun pf => ∃ m' ∈ m0 :: rest, validIn pm m' pf)) :
-    IsMsgs P (encodeGroup P arch (m0 :: rest)) (m0 :: rest) := by
+    IsMsgs P (encodeGroup P arch (m0 :: rest)) ((m0 :: rest).map (wireMsg pm (m0 :: rest))) := by
   intro bs h
   unfold encodeGroup at h
   simp only at h
@@ -406,14 +418,15 @@ theorem isMsgs_group (P : Profile) (hwf : ProfileWF P = true) (arch : Endian) (m
         have hmem : ∀ pf ∈ fs, pf ∈ pm.fields := fun pf hp => hflat pf (hmemflat pf hp)
         have hfw : ∀ pf ∈ fs, fieldWF pm pf = true := fun pf hp => hall pf (hmem pf hp)
         obtain ⟨partss, hb, hfit, hlinked⟩ := group_datas_linked arch pm fs (m0 :: rest) b hfw hc
-        refine ⟨[⟨defOf arch m0.num fs, partss, m0 :: rest⟩], ?_, ?_, by simp⟩
+        refine ⟨[⟨defOf arch m0.num fs, partss, (m0 :: rest).map (wireMsg pm (m0 :: rest))⟩], ?_, ?_, by simp⟩
         · rw [defBytes_eq, hb]
           simp [serialize, blockItems]
         · intro bl hbl
           simp only [List.mem_singleton] at hbl
           subst hbl
           refine ⟨defOf_good P hwf arch m0.num pm hpm hkn fs hmem hsmall partss hfit, ?_⟩
-          apply hlinked.imp
+          show All2 (Rebuilds P (defOf arch m0.num fs)) partss ((m0 :: rest).map (wireMsg pm (m0 :: rest)))
+          refine All2.map_right _ hlinked ?_
           intro parts m _ hm hparts pm' hpm' st
           have e : pm' = pm := by
             have : P.msg? m0.num = some pm' := hpm'
@@ -430,13 +443,15 @@ theorem isMsgs_group (P : Profile) (hwf : ProfileWF P = true) (arch : Endian) (m
               exact ⟨m, hm, hv⟩
           have hinvlen : pm'.invalid.length = pm'.layout.length := (msgWF_known pm' hmw (known_pm' P m0.num pm' hpm hkn)).2.2.1
           have hrt' : ∀ pf ∈ fs, ∀ k v, pm'.layout[pf.sindex]? = some k → m.vals[pf.sindex]? = some v →
-              FieldRTI P (defOf arch m0.num fs) pf k v (pm'.invalid.getD pf.sindex (.u 0)) := by
+              FieldRTG P (defOf arch m0.num fs) pf k v (pm'.invalid.getD pf.sindex (.u 0))
+                (padVal pf (m.vals.getD pf.sindex (.u 0))) := by
             intro pf hp k v hk hv
+            rw [getD_of_getElem? _ _ _ _ hv]
             cases hiv : isInvalidVal pm' pf.sindex v with
             | false =>
               have := (hd m hm).rt pf (hmem pf hp) (hvalid pf (hmemflat pf hp)) k v hk hv hiv fs
               rw [hmn] at this
-              exact this.toI _
+              exact this
             | true =>
               have := (hd m hm).filler pf (hmem pf hp) (hvalid pf (hmemflat pf hp)) k v hk hv hiv fs
               rw [hmn] at this
@@ -450,34 +465,86 @@ theorem isMsgs_group (P : Profile) (hwf : ProfileWF P = true) (arch : Endian) (m
             obtain ⟨k, hk, _⟩ := (fieldWF_facts pm' pf (hfw pf hp)).slot
             have hlt : pf.sindex < pm'.invalid.length := by rw [hinvlen]; exact (List.getElem?_eq_some_iff.mp hk).1
             simp only [List.getD_eq_getElem?_getD, List.getElem?_eq_getElem hlt, Option.getD_some]
-          obtain ⟨msg', st', h1, h2, h3, h4, h5⟩ := stepFields_rebuildsI P (defOf arch m0.num fs) pm' m fs parts
-            (fun pf => pm'.invalid.getD pf.sindex (.u 0)) (sortedS_pairwise fs hsortedS) hparts hrt' hgf
+          obtain ⟨msg', st', h1, h2, h3, h4, h5⟩ := stepFields_rebuildsG P (defOf arch m0.num fs) pm' m fs parts
+            (fun pf => pm'.invalid.getD pf.sindex (.u 0)) (fun pf => padVal pf (m.vals.getD pf.sindex (.u 0)))
+            (sortedS_pairwise fs hsortedS) hparts hrt' hgf
             ⟨m0.num, pm'.invalid⟩ st hvl.symm hinit
           refine ⟨st', ?_⟩
-          have hm' : msg' = m := by
+          have hm' : msg' = wireMsg pm' (m0 :: rest) m := by
             cases msg' with
             | mk num' vals' =>
-              cases m with
-              | mk num vals =>
-                simp only at h2 h3 h4 h5 hvl hmn
-                simp only [Msg.mk.injEq]
-                refine ⟨by rw [h2, hmn], ?_⟩
-                apply List.ext_getElem?
-                intro i
-                by_cases hin : ∃ pf ∈ fs, pf.sindex = i
-                · exact h4 i hin
-                · rw [h5 i hin]
-                  by_cases hil : i < vals.length
-                  · have hv : vals[i]? = some vals[i] := List.getElem?_eq_getElem hil
-                    have hiv : isInvalidVal pm' i (vals.getD i (.u 0)) = true := by
-                      cases hh : isInvalidVal pm' i (vals.getD i (.u 0)) with
-                      | true => rfl
-                      | false => exact absurd (hcover _ hm i hil hh) hin
-                    rw [getD_of_getElem? _ _ _ _ hv] at hiv
-                    rw [(hd _ hm).inv i vals[i] hv hiv, hv]
-                  · have h1' : vals[i]? = none := List.getElem?_eq_none (by omega)
-                    have h2' : pm'.invalid[i]? = none := List.getElem?_eq_none (by omega)
-                    rw [h1', h2']
+              simp only at h2 h3 h4 h5
+              have hw : wireMsg pm' (m0 :: rest) m = ⟨m.num, (wireMsg pm' (m0 :: rest) m).vals⟩ := rfl
+              rw [hw]
+              simp only [Msg.mk.injEq]
+              refine ⟨by rw [h2, hmn], ?_⟩
+              apply List.ext_getElem?
+              intro i
+              rw [wireMsg_getElem?]
+              by_cases hin : ∃ pf ∈ fs, pf.sindex = i
+              · obtain ⟨pf, hp, hpi⟩ := hin
+                subst hpi
+                rw [h4 pf hp]
+                obtain ⟨k, hk, _⟩ := (fieldWF_facts pm' pf (hfw pf hp)).slot
+                have hlt : pf.sindex < m.vals.length := by
+                  rw [hvl, hinvlen]; exact (List.getElem?_eq_some_iff.mp hk).1
+                have hv : m.vals[pf.sindex]? = some m.vals[pf.sindex] := List.getElem?_eq_getElem hlt
+                rw [hv]
+                simp only [Option.map_some]
+                congr 1
+                unfold wireVal
+                rw [fieldBySindex_of_mem pm' hmw pf (hmem pf hp)]
+                have hon : onIn pm' (m0 :: rest) pf = true := by
+                  obtain ⟨mx, hmx, hvx⟩ := hvalid pf (hmemflat pf hp)
+                  unfold onIn
+                  rw [List.any_eq_true]
+                  exact ⟨mx, hmx, by unfold validIn at hvx; rw [hvx]; rfl⟩
+                simp only [hon, ↓reduceIte, getD_of_getElem? _ _ _ _ hv]
+              · rw [h5 i hin]
+                by_cases hil : i < m.vals.length
+                · have hv : m.vals[i]? = some m.vals[i] := List.getElem?_eq_getElem hil
+                  have hiv : isInvalidVal pm' i (m.vals.getD i (.u 0)) = true := by
+                    cases hh : isInvalidVal pm' i (m.vals.getD i (.u 0)) with
+                    | true => rfl
+                    | false => exact absurd (hcover _ hm i hil hh) hin
+                  rw [getD_of_getElem? _ _ _ _ hv] at hiv
+                  show pm'.invalid[i]? = _
+                  rw [(hd _ hm).inv i m.vals[i] hv hiv, hv]
+                  simp only [Option.map_some]
+                  congr 1
+                  unfold wireVal
+                  cases hf : fieldBySindex pm' i with
+                  | none => rfl
+                  | some pf =>
+                    have hsi := fieldBySindex_sindex pm' i pf hf
+                    have hon : onIn pm' (m0 :: rest) pf = false := by
+                      cases hh : onIn pm' (m0 :: rest) pf with
+                      | false => rfl
+                      | true =>
+                        exfalso
+                        unfold onIn at hh
+                        rw [List.any_eq_true] at hh
+                        obtain ⟨mx, hmx, hvx⟩ := hh
+                        have hmxl : mx.vals.length = pm'.invalid.length := by
+                          by_cases hv' : mx.vals.length = pm'.invalid.length
+                          · exact hv'
+                          · exfalso
+                            apply hcond
+                            right
+                            simp only [List.any_eq_true, decide_eq_true_eq]
+                            exact ⟨mx, hmx, hv'⟩
+                        have hix : i < mx.vals.length := by rw [hmxl, ← hvl]; exact hil
+                        rw [hsi] at hvx
+                        have hvx' : isInvalidVal pm' i (mx.vals.getD i (.u 0)) = false := by
+                          cases h' : isInvalidVal pm' i (mx.vals.getD i (.u 0)) with
+                          | false => rfl
+                          | true => rw [h'] at hvx; cases hvx
+                        exact hin (hcover mx hmx i hix hvx')
+                    simp only [hon, Bool.false_eq_true, ↓reduceIte]
+                · have h1' : m.vals[i]? = none := List.getElem?_eq_none (by omega)
+                  have h2' : pm'.invalid[i]? = none := List.getElem?_eq_none (by omega)
+                  show pm'.invalid[i]? = _
+                  rw [h1', h2']; rfl
           rw [hm'] at h1
           exact h1
 
@@ -569,13 +636,15 @@ end Fit
 namespace Fit
 
 theorem isMsgs_oneDom (P : Profile) (hwf : ProfileWF P = true) (arch : Endian) (m : Msg) (h : OneDom P arch m) :
-    IsMsgs P (encodeOne P arch m) [m] := by
+    IsMsgs P (encodeOne P arch m) [wire1 P m] := by
   obtain ⟨pm, hpm, _⟩ := known_hasCtor P hwf _ h.1
+  have e : wire1 P m = wireMsg pm [m] m := by unfold wire1; rw [hpm]
+  rw [e]
   exact isMsgs_one P hwf arch m pm hpm h.1 (h.2 pm hpm)
 
 theorem isMsgs_opt (P : Profile) (hwf : ProfileWF P = true) (arch : Endian) (om : Option Msg)
     (h : ∀ m, om = some m → OneDom P arch m) :
-    IsMsgs P (match (generalizing := false) om with | some m => encodeOne P arch m | none => .ok []) om.toList := by
+    IsMsgs P (match (generalizing := false) om with | some m => encodeOne P arch m | none => .ok []) (om.map (wire1 P)).toList := by
   cases om with
   | none => exact isMsgs_nil P
   | some m => exact isMsgs_oneDom P hwf arch m (h m rfl)
@@ -585,21 +654,28 @@ theorem isMsgs_slot (P : Profile) (hwf : ProfileWF P = true) (arch : Endian) (ma
     IsMsgs P (if many then encodeGroup P arch ms
       else match (generalizing := false) ms with
         | m :: _ => encodeOne P arch m
-        | [] => .ok []) (if many then ms else ms.take 1) := by
+        | [] => .ok []) (if many then wireSlot P many ms else (wireSlot P many ms).take 1) := by
   cases many with
   | true =>
     simp only [↓reduceIte]
     cases ms with
-    | nil => simp only [encodeGroup]; exact isMsgs_nil P
+    | nil => simp only [encodeGroup, wireSlot]; exact isMsgs_nil P
     | cons m0 rest =>
       obtain ⟨hk, hnum, hd⟩ := h m0 rest rfl
       obtain ⟨pm, hpm, _⟩ := known_hasCtor P hwf _ hk
+      have e : wireSlot P true (m0 :: rest) = (m0 :: rest).map (wireMsg pm (m0 :: rest)) := by
+        simp only [wireSlot, ↓reduceIte, hpm]
+      rw [e]
       exact isMsgs_group P hwf arch m0 rest pm hpm hk hnum (hd pm hpm)
   | false =>
     simp only [Bool.false_eq_true, ↓reduceIte]
     cases ms with
-    | nil => exact isMsgs_nil P
-    | cons m rest => exact isMsgs_oneDom P hwf arch m h.head
+    | nil => simp only [wireSlot, List.take_nil]; exact isMsgs_nil P
+    | cons m rest =>
+      have e : (wireSlot P false (m :: rest)).take 1 = [wire1 P m] := by
+        simp [wireSlot]
+      rw [e]
+      exact isMsgs_oneDom P hwf arch m h.head
 
 end Fit
 
@@ -608,15 +684,16 @@ namespace Fit
 /-- **`Decode ∘ Encode`, whole File.** On a well-formed profile, for every File in the round-trip
     domain that `Encode` accepts: decoding the bytes (followed by anything, through any reader)
     succeeds, and the File returned is the replay of `File.add` — from the freshly attached, empty
-    container carrying the File's own file_id — over the File's messages in the encoder's order. -/
+    container carrying the File's own file_id — over the File's messages in the encoder's order,
+    each with the array fields its record carries padded to the profile length (`wireFile`). -/
 theorem decode_encode_file (P : Profile) (hwf : ProfileWF P = true) (arch : Endian) (f f' : FileSt) (bs : Bytes)
     (h : encode P arch f = .ok bs f') (hdom : FileRT P arch f) (hsmall : bs.length < 4294967296)
     (o : Opts) (g : Globals) (tail : Bytes) (stop : Stop) :
     ∃ (i : Nat) (H : Header) (C : Nat) (F : FileSt) (G : Globals) (F' : FileSt),
       f.cidx = some i ∧
-      addAll P ({ hdr := H, fileId := f.fileId, cidx := some i,
+      addAll P ({ hdr := H, fileId := (wireFile P (P.containers.getD i default) f).fileId, cidx := some i,
                   slots := List.replicate (P.containers.getD i default).slots.length [] }, g)
-        (encodedMsgs (P.containers.getD i default) f) = some (F, G) ∧
+        (encodedMsgs (P.containers.getD i default) (wireFile P (P.containers.getD i default) f)) = some (F, G) ∧
       (decodeSpec P o .full g (bs ++ tail) stop).1.success ∧
       (decodeSpec P o .full g (bs ++ tail) stop).1.st.glob = G ∧
       (decodeSpec P o .full g (bs ++ tail) stop).1.st.file = some F' ∧
@@ -671,15 +748,15 @@ theorem decode_encode_file (P : Profile) (hwf : ProfileWF P = true) (arch : Endi
               cases hbody
               let c := P.containers.getD i default
               let l : List (Except EncErr Bytes × List Msg) :=
-                ((match f.creator with | some m => encodeOne P arch m | none => Except.ok []), f.creator.toList) ::
-                ((match f.tscorr with | some m => encodeOne P arch m | none => Except.ok []), f.tscorr.toList) ::
+                ((match f.creator with | some m => encodeOne P arch m | none => Except.ok []), (f.creator.map (wire1 P)).toList) ::
+                ((match f.tscorr with | some m => encodeOne P arch m | none => Except.ok []), (f.tscorr.map (wire1 P)).toList) ::
                 (c.slots.zip f.slots).map (fun x =>
                   ((if x.1.many then encodeGroup P arch x.2
                     else match x.2 with
                       | m :: _ => encodeOne P arch m
-                      | [] => .ok []), (if x.1.many then x.2 else x.2.take 1)))
-              have hl2 : l.flatMap (·.2) = encodedMsgs c f := by
-                simp only [l, encodedMsgs, List.flatMap_cons, List.flatMap_map]
+                      | [] => .ok []), (if x.1.many then wireSlot P x.1.many x.2 else (wireSlot P x.1.many x.2).take 1)))
+              have hl2 : l.flatMap (·.2) = encodedMsgs c (wireFile P c f) := by
+                simp only [l, encodedMsgs, wireFile, List.flatMap_cons, List.flatMap_map, zip_map_zip]
               have hlm : ∀ x ∈ l, IsMsgs P x.1 x.2 := by
                 intro x hx
                 simp only [l, List.mem_cons, List.mem_map] at hx
@@ -697,9 +774,11 @@ theorem decode_encode_file (P : Profile) (hwf : ProfileWF P = true) (arch : Endi
               obtain ⟨pm0, hpm0, _⟩ := known_hasCtor P hwf _ hdom.fid.1
               have hd0 := hdom.fid.2 pm0 hpm0
               obtain ⟨fs, parts0, st1, st2, hb0, hgood0, hs1, hs2, hf2, hd2, hg2, _⟩ :=
-                fileid_block_ok P hwf arch f.fileId b0 pm0 hpm0 hdom.fid.1 hdom.fidNum hfid
-                  (fun pf hp k v hk hv hiv fs => hd0.rt pf hp (by unfold validIn; rw [getD_of_getElem? _ _ _ _ hv]; exact hiv) k v hk hv hiv fs)
-                  hd0.inv
+                fileid_block_ok P hwf arch f.fileId b0 pm0 hpm0 hdom.fid.1 (wireMsg pm0 [f.fileId] f.fileId) hdom.fidNum
+                  (message_roundtripG P hwf arch f.fileId b0 pm0 hpm0
+                    (by have := hdom.fid.1; unfold Profile.known at this; rw [hpm0] at this; exact this) hfid
+                    (fun pf hp k v hk hv hiv fs => hd0.rt pf hp (by unfold validIn; rw [getD_of_getElem? _ _ _ _ hv]; exact hiv) k v hk hv hiv fs)
+                    hd0.inv)
                   (recState0 P k g f.hdr.proto f.hdr.profile (b0 ++ br).length)
                   { hdr := (afterHeader k g f.hdr.proto f.hdr.profile (b0 ++ br).length).hdr, fileId := zeroFileId P }
                   rfl rfl (by simp [recState0, afterHeader, DecSt.init])
@@ -725,16 +804,17 @@ theorem decode_encode_file (P : Profile) (hwf : ProfileWF P = true) (arch : Endi
               obtain ⟨H, hH⟩ : ∃ H : Header, H = (afterHeader k g f.hdr.proto f.hdr.profile (serialize
                     (.defn (defOf arch f.fileId.num fs) false :: .data (defOf arch f.fileId.num fs).localT parts0 [] ::
                       blocks.flatMap fun b => blockItems b.d b.partss)).length).hdr := ⟨_, rfl⟩
-              obtain ⟨f3, hf3⟩ : ∃ f3 : FileSt, f3 = { hdr := H, fileId := f.fileId, cidx := some i, slots := List.replicate c.slots.length [] } := ⟨_, rfl⟩
+              obtain ⟨f3, hf3⟩ : ∃ f3 : FileSt, f3 = { hdr := H, fileId := wireMsg pm0 [f.fileId] f.fileId, cidx := some i, slots := List.replicate c.slots.length [] } := ⟨_, rfl⟩
               have hinit3 : FileSt.init P { ({ hdr := (afterHeader k g f.hdr.proto f.hdr.profile (serialize
                     (.defn (defOf arch f.fileId.num fs) false :: .data (defOf arch f.fileId.num fs).localT parts0 [] ::
                       blocks.flatMap fun b => blockItems b.d b.partss)).length).hdr, fileId := zeroFileId P } : FileSt)
-                    with fileId := f.fileId } = .ok f3 := by
+                    with fileId := wireMsg pm0 [f.fileId] f.fileId } = .ok f3 := by
                 unfold FileSt.init
                 have : fileTypeOf { ({ hdr := (afterHeader k g f.hdr.proto f.hdr.profile (serialize
                     (.defn (defOf arch f.fileId.num fs) false :: .data (defOf arch f.fileId.num fs).localT parts0 [] ::
                       blocks.flatMap fun b => blockItems b.d b.partss)).length).hdr, fileId := zeroFileId P } : FileSt)
-                    with fileId := f.fileId } = fileTypeOf f := rfl
+                    with fileId := wireMsg pm0 [f.fileId] f.fileId } = fileTypeOf f := by
+                  rw [fileTypeOf_wire]; rfl
                 rw [this, hia, hf3, hH]
               obtain ⟨st', fg', hst', hadd, hI'⟩ := stepItems_msgblocks P hwf blocks hgb { st2 with file := some f3 } f3 g
                 ⟨rfl, hg2', by rw [hf3]; rfl, hd2⟩
@@ -795,7 +875,11 @@ theorem decode_encode_file (P : Profile) (hwf : ProfileWF P = true) (arch : Endi
                     serialize (.defn d0 false :: .data d0.localT parts0 [] :: restItems))).toNat = C
               obtain ⟨F', hF', hsame, hgl⟩ := finalize_content o (okOut { st' with crc := 0#16, file := st'.file.map fun x => { x with crc := C } }) { fg'.1 with crc := C } (by simp only [okOut, hfile', Option.map_some])
               refine ⟨i, H, C, fg'.1, fg'.2, F', rfl, ?_, finalize_okOut_success o _, ?_, hF', hsame⟩
-              · rw [hf3] at hadd; exact hadd
+              · rw [hf3] at hadd
+                have e : (wireFile P (P.containers.getD i default) f).fileId = wireMsg pm0 [f.fileId] f.fileId := by
+                  show wire1 P f.fileId = _
+                  unfold wire1; rw [hpm0]
+                rw [e]; exact hadd
               · rw [hgl]; exact hglob'
 
 end Fit
